@@ -76,7 +76,10 @@ def gates(kinds=("iter", "submit", "batchsize", "retrieve", "batchdone"), max_ga
                                     "do": st.just([]), "park": st.just(True)})
     # a completion callback delayed in batch_completed() (outside joblib's lock) until the NEXT call is under way
     stale = st.fixed_dictionaries({"gate": st.just("batchdone"), "at": st.integers(0, 4), "do": st.just([]), "park": st.just("next_call")})
-    return st.lists(st.one_of(g, g, parked, stale), max_size=max_gates, unique_by=lambda x: (x["gate"], x["at"]))
+    # completions left over from an earlier (failed / abandoned) call that arrive while the NEXT call is being set up
+    at_setup = st.fixed_dictionaries({"gate": st.just("configure"), "at": st.just(0), "park": st.just(False),
+                                      "do": st.lists(st.tuples(st.just("late"), st.integers(0, 5)).map(list), min_size=1, max_size=3)})
+    return st.lists(st.one_of(g, g, g, parked, stale, at_setup), max_size=max_gates, unique_by=lambda x: (x["gate"], x["at"]))
 
 
 # ---- trace analyses shared by the property modules --------------------------------------
